@@ -100,3 +100,61 @@ Definition full (j : jid) : str :=
   else node j ++ [c_at] ++ domain j ++ [c_slash] ++ resource j.
 
 Definition strip_resource (j : jid) : jid := mkJid (node j) (domain j) [].
+
+(* ---- histories: several calls in one process, with callers assigning to the exported
+   fields of the Jid values they were handed ----
+   A *Jid returned by NewJid belongs to its caller.  The heap below holds those values
+   (one slot per step of the history; None where the step returned no Jid); HMut is the
+   caller's assignment to a field of the value an earlier step returned; HPar is a group of
+   goroutines, one per string, each parsing its string [rounds] times (and scribbling on
+   its own result in between, which the model has no need to represent: the values are
+   the callers').  A parse never reads the heap: its observation is new_jid of its
+   argument (Proofs/JidP.v run_hist_pure; Props/C15.v C15_history_independent). *)
+Inductive jfield := FNode | FDomain | FResource.
+
+Inductive hstep :=
+| HParse (s : str)
+| HMut (k : nat) (f : jfield) (v : str)
+| HPar (ss : list str) (rounds : nat).
+
+Inductive hobs :=
+| OParse (r : result)
+| OMut
+| OPar (rs : list (list result)).
+
+Definition set_field (f : jfield) (v : str) (j : jid) : jid :=
+  match f with
+  | FNode => mkJid v (domain j) (resource j)
+  | FDomain => mkJid (node j) v (resource j)
+  | FResource => mkJid (node j) (domain j) v
+  end.
+
+Fixpoint heap_update (heap : list (option jid)) (k : nat) (g : jid -> jid) : list (option jid) :=
+  match heap, k with
+  | [], _ => []
+  | x :: t, O => option_map g x :: t
+  | x :: t, S k' => x :: heap_update t k' g
+  end.
+
+Definition hist_step (heap : list (option jid)) (st : hstep) : list (option jid) * hobs :=
+  match st with
+  | HParse s =>
+      let r := new_jid s in
+      (heap ++ [match r with Ok j => Some j | Err => None end], OParse r)
+  | HMut k f v => (heap_update heap k (set_field f v) ++ [None], OMut)
+  | HPar ss n => (heap ++ [None], OPar (map (fun s => repeat (new_jid s) n) ss))
+  end.
+
+Fixpoint run_hist (heap : list (option jid)) (h : list hstep) : list hobs :=
+  match h with
+  | [] => []
+  | st :: t => let '(heap', o) := hist_step heap st in o :: run_hist heap' t
+  end.
+
+(* what a step shows when nothing at all is remembered *)
+Definition step_obs (st : hstep) : hobs :=
+  match st with
+  | HParse s => OParse (new_jid s)
+  | HMut _ _ _ => OMut
+  | HPar ss n => OPar (map (fun s => repeat (new_jid s) n) ss)
+  end.
